@@ -207,11 +207,19 @@ def main(prop, tier, seed, replay=None):
                         x["corpus"] = fn
                     corpus_dis += d
                     corpus_viol += v
-        except Exception:
-            print("INFRA corpus check crashed:\n" + traceback.format_exc())
-            if ctx.model is not None:
-                ctx.model.close()
-            return 2
+        except Exception as ex:
+            tb = traceback.format_exc()
+            repo = os.path.abspath(os.environ.get("NPTDMS_REPO", "/repo"))
+            inside = [fr for fr in traceback.extract_tb(ex.__traceback__) if os.path.abspath(fr.filename).startswith(repo + os.sep)]
+            if not inside:
+                print("INFRA corpus check crashed:\n" + tb)
+                if ctx.model is not None:
+                    ctx.model.close()
+                return 2
+            # the code under test raised on an input of the regression corpus (all of them are well-formed inputs it used to handle)
+            corpus_viol.append(Violation("unhandled %s from the code under test at %s:%d (%s) on a corpus input: %s" % (
+                type(ex).__name__, os.path.relpath(inside[-1].filename, repo), inside[-1].lineno, inside[-1].name, str(ex)[:200]),
+                dict(kind="exception", traceback=tb[-3000:], seed=seed, tier=tier)))
     try:
         ctx.t0 = time.time()      # exploration time budgets start after translation, build and audit
         res = mod.run(ctx)
